@@ -4,6 +4,7 @@
 package main
 
 import (
+	"context"
 	"path/filepath"
 	"runtime"
 	"bufio"
@@ -166,6 +167,62 @@ func main() {
 	}
 }
 
+// loadFactor is how oversubscribed the machine is (1-minute load average per CPU, between 1 and 8):
+// every wall-clock hang detector of the harness is stretched by it, so that a case that is merely
+// slow because twenty other processes share the cores is not reported as a hang.
+func loadFactor() float64 {
+	b, err := os.ReadFile("/proc/loadavg")
+	if err != nil {
+		return 1
+	}
+	var l float64
+	if _, err := fmt.Sscanf(string(b), "%f", &l); err != nil {
+		return 1
+	}
+	f := l / float64(runtime.NumCPU())
+	if f < 1 {
+		return 1
+	}
+	if f > 8 {
+		return 8
+	}
+	return f
+}
+
+// hangAfter fires once d, stretched by the load factor as read at expiry, has passed.
+func hangAfter(d time.Duration) <-chan time.Time {
+	ch := make(chan time.Time, 1)
+	go func() {
+		start := time.Now()
+		wait := d
+		for {
+			time.Sleep(wait)
+			lim := time.Duration(float64(d) * loadFactor())
+			el := time.Since(start)
+			if el >= lim {
+				ch <- time.Now()
+				return
+			}
+			wait = lim - el
+		}
+	}()
+	return ch
+}
+
+// ctxHangAfter is context.WithTimeout with the same stretching.
+func ctxHangAfter(d time.Duration) (context.Context, context.CancelFunc) {
+	ctx, cancel := context.WithCancel(context.Background())
+	t := hangAfter(d)
+	go func() {
+		select {
+		case <-t:
+			cancel()
+		case <-ctx.Done():
+		}
+	}()
+	return ctx, cancel
+}
+
 // runWithWatchdog runs one case; if it does not finish in time the process exits with status 4 so
 // that the supervisor records a hang for the in-flight case and restarts after it.
 func runWithWatchdog(f func(), d time.Duration) {
@@ -176,7 +233,7 @@ func runWithWatchdog(f func(), d time.Duration) {
 	}()
 	select {
 	case <-done:
-	case <-time.After(d):
+	case <-hangAfter(d):
 		// where is everybody? (kept by the supervisor in the replay file)
 		buf := make([]byte, 1<<20)
 		n := runtime.Stack(buf, true)
